@@ -154,42 +154,55 @@ Proof. intros. unfold rmtree. wfo. apply wf_rmtree_unsafe. Qed.
 Lemma wf_rmtree_ign : forall p, wf _ t TT (rmtree_ign p).
 Proof. intros. unfold rmtree_ign. eapply wf_pbind; [apply wf_rmtree|]. intros; wfr. Qed.
 
+Lemma wf_csw_k : forall tmp final b (k : result unit -> prog (result unit)),
+  tmp_final outok metaok t tmp final b -> (forall r, wf _ t TT (k r)) ->
+  wf _ t TT (csw tmp final b k).
+Proof.
+  intros tmp final b k Htf Hk. unfold csw, csw_src; cbn [csw_interp]. eapply wf_csw; eauto.
+  intros r Hr. destruct r; try discriminate;
+    (apply ws_intro; intros r1; apply rs_intro; intros r2; destruct r2; apply Hk).
+Qed.
+
+Lemma wf_write_if_given : forall c, (c = None \/ exists b, c = Some b /\ codew b) ->
+  wf _ t TT (match c with
+             | None => Ret (Ok tt)
+             | Some b => Op (Creat PCode) (fun r => match r with
+                           | RErr e => Ret (Raise (exn_of e))
+                           | _ => Op (Write PCode b) (fun _ => Ret (Ok tt)) end) end).
+Proof.
+  intros c Hc. destruct Hc as [->|(b & -> & Hb)]; [wfr|]. wfo.
+  destruct r; try wfr; (wfo; wfr).
+Qed.
+
 Lemma wf_store_code : forall c, (c = None \/ exists b, c = Some b /\ codew b) -> wf _ t TT (store_code c).
 Proof.
-  intros c Hc. unfold store_code.
-  assert (Hw : wf _ t TT (match c with
-           | None => Ret (Ok tt)
-           | Some b => Op (Creat PCode) (fun r => match r with
-                         | RErr e => Ret (Raise (exn_of e))
-                         | _ => Op (Write PCode b) (fun _ => Ret (Ok tt)) end) end)).
-  { destruct Hc as [->|(b & -> & Hb)]; [wfr|]. wfo.
-    destruct r; try wfr; (wfo; wfr). }
+  intros c Hc. unfold store_code, store_code_src, handled; cbn [fst snd interp_store path_of].
+  pose proof (wf_write_if_given c Hc) as Hw.
   wfo. destruct (is_ok r); auto.
   unfold ebind. eapply wf_pbind; [apply wf_mkdirp; reflexivity|].
   intros [u|e] _; auto. wfr.
 Qed.
 
-Lemma wf_csw_ret : forall tmp final b, tmp_final outok metaok t tmp final b ->
-  wf _ t TT (csw tmp final b (fun r => Ret r)).
-Proof.
-  intros tmp final b Htf. unfold csw. eapply wf_csw; eauto.
-  - intros e; wfr.
-  - intros r Hr. destruct r; try discriminate; (apply ws_intro; intros r1; apply rs_intro; intros r2; wfr).
-Qed.
-
 Lemma wf_dump_item : forall k v, outok k (pickle v) -> wf _ t TT (dump_item pickle t k v).
 Proof.
-  intros k v Hok. unfold dump_item. eapply wf_pbind with (Q1 := TT); [|intros; wfr].
-  wfo. unfold ebind. eapply wf_pbind with (Q1 := TT).
-  - destruct (is_ok r); [wfr | apply wf_mkdirp; reflexivity].
-  - intros [u|e] _; [|wfr]. apply wf_csw_ret. left; exists k; auto.
+  intros k v Hok. unfold dump_item, dump_item_src, handled; cbn [fst snd interp_store path_of tmp_of].
+  eapply wf_pbind with (Q1 := TT); [|intros; wfr].
+  eapply wf_pbind with (Q1 := TT); [|intros; wfr].
+  assert (Hc : wf _ t TT (csw (POutT k t) (POut k) (pickle v)
+            (fun r => match r with Ok _ => Ret (Ok tt) | Raise e => Ret (Raise e) end))).
+  { apply wf_csw_k; [left; exists k; auto | intros [u|e]; wfr]. }
+  wfo. destruct (is_ok r); auto.
+  unfold ebind. eapply wf_pbind with (Q1 := TT); [apply wf_mkdirp; reflexivity|].
+  intros [u|e] _; auto. wfr.
 Qed.
 
 Lemma wf_store_metadata : forall k, wf _ t TT (store_metadata meta t k).
 Proof.
-  intros k. unfold store_metadata. eapply wf_pbind with (Q1 := TT); [|intros; wfr].
+  intros k. unfold store_metadata, store_metadata_src, handled; cbn [fst snd interp_store path_of tmp_of].
+  eapply wf_pbind with (Q1 := TT); [|intros; wfr].
+  eapply wf_pbind with (Q1 := TT); [|intros; wfr].
   unfold ebind. eapply wf_pbind; [apply wf_mkdirp; reflexivity|].
-  intros [u|e] _; [|wfr]. apply wf_csw_ret. right; exists k; auto.
+  intros [u|e] _; [|wfr]. apply wf_csw_k; [right; exists k; auto | intros [u2|e]; wfr].
 Qed.
 
 Lemma wf_clear_func : wf _ t TT (clear_func code cur).
